@@ -40,6 +40,7 @@ type FuncSpec struct {
 	Flags    map[string]string
 	Uses     []string // lemma instantiations
 	AtCalls  map[string][]Clause // "callee@n" -> extra call-site preconditions (typestate)
+	AtStores map[string][]Clause // struct type name -> obligation on every store into an object of that type ($p = the object)
 	AfterCalls map[string][]Clause // "callee@n" -> assumptions about the call's result (rely conditions; listed in the evidence)
 	File     string
 	Line     int
@@ -82,7 +83,7 @@ var clauseKeywords = map[string]bool{
 	"func": true, "spec": true, "axiom": true, "requires": true, "ensures": true, "ensureslocal": true,
 	"modifies": true, "pure": true, "loop": true, "inline": true, "trusted": true,
 	"maypanic": true, "property": true, "returns": true, "flag": true, "use": true,
-	"constglobal": true, "opaque": true, "package": true, "ghostcomp": true, "atcall": true, "aftercall": true,
+	"constglobal": true, "opaque": true, "package": true, "ghostcomp": true, "atcall": true, "aftercall": true, "atstore": true,
 }
 
 var reLabel = regexp.MustCompile(`^@([A-Za-z0-9_.\-]+)\s+`)
@@ -159,7 +160,7 @@ func (ss *SpecSet) loadSpecFile(path, pkgName string) error {
 					rets = append(rets, strings.TrimSpace(x))
 				}
 			}
-			cur = &FuncSpec{Pkg: pkgName, Name: name, Returns: rets, Loops: map[int]*LoopSpec{}, Flags: map[string]string{}, AtCalls: map[string][]Clause{}, AfterCalls: map[string][]Clause{}, File: path, Line: rc.line}
+			cur = &FuncSpec{Pkg: pkgName, Name: name, Returns: rets, Loops: map[int]*LoopSpec{}, Flags: map[string]string{}, AtCalls: map[string][]Clause{}, AfterCalls: map[string][]Clause{}, AtStores: map[string][]Clause{}, File: path, Line: rc.line}
 			if _, dup := ss.Funcs[cur.Key()]; dup {
 				return fmt.Errorf("%s:%d: duplicate contract for %s", path, rc.line, cur.Key())
 			}
@@ -266,6 +267,17 @@ func (ss *SpecSet) loadSpecFile(path, pkgName string) error {
 				}
 			case "use":
 				cur.Uses = append(cur.Uses, rest)
+			case "atstore":
+				// atstore <StructType> requires <expr>   ($p = pointer to the object that is written)
+				parts := strings.SplitN(rest, " ", 3)
+				if len(parts) < 3 || parts[1] != "requires" {
+					return fmt.Errorf("%s:%d: expected 'atstore <Type> requires <expr>'", path, rc.line)
+				}
+				c, err := mkClause(strings.TrimSpace(parts[2]))
+				if err != nil {
+					return err
+				}
+				cur.AtStores[parts[0]] = append(cur.AtStores[parts[0]], c)
 			case "aftercall":
 				// aftercall <callee>@<n> assume <expr>   (result denotes the call's first result)
 				parts := strings.SplitN(rest, " ", 3)
